@@ -129,6 +129,11 @@ func compileToken(t token) (Expr, error) {
 	switch {
 	case t.t == typeLiteral && isBoxed(t.val):
 		inner := t.val[1 : len(t.val)-1]
+		for i := 0; i < len(inner); i++ { // one pair of brackets: "[x]]", "[[x]]", "[0][1]" are no keys
+			if inner[i] == '[' || inner[i] == ']' {
+				return nil, ErrTokenizerNumeric
+			}
+		}
 		if idx, err := strconv.Atoi(inner); err == nil {
 			return &exprIndexVar{idx}, nil
 		}
